@@ -6,11 +6,11 @@ import (
 	"fmt"
 	"net/url"
 	"regexp"
+	"slices"
 	"strconv"
 	"strings"
 	"time"
 
-	"github.com/grpc-ecosystem/grpc-gateway/v2/utilities"
 	"google.golang.org/grpc/grpclog"
 	"google.golang.org/protobuf/encoding/protojson"
 	"google.golang.org/protobuf/proto"
@@ -35,18 +35,34 @@ func Bytes(val string) ([]byte, error) {
 	return b, nil
 }
 
+// FieldPathFilter is a set of field paths which are already bound and must not be populated from the query.
+// It replaces gRPC-Gateway's utilities.DoubleArray, whose lookups give wrong answers as soon
+// as two of the registered paths share an element, e.g. "book.shelf.id" and "book.id".
+type FieldPathFilter [][]string
+
+// HasCommonPrefix reports whether one of the filter's field paths is a prefix of (or equal to) the given field path.
+func (f FieldPathFilter) HasCommonPrefix(fieldPath []string) bool {
+	for _, bound := range f {
+		if len(bound) <= len(fieldPath) && slices.Equal(bound, fieldPath[:len(bound)]) {
+			return true
+		}
+	}
+
+	return false
+}
+
 var valuesKeyRegexp = regexp.MustCompile(`^(.*)\[(.*)\]$`)
 
 var currentQueryParser QueryParameterParser = &DefaultQueryParser{}
 
 // QueryParameterParser defines interface for all query parameter parsers
 type QueryParameterParser interface {
-	Parse(msg proto.Message, values url.Values, filter *utilities.DoubleArray) error
+	Parse(msg proto.Message, values url.Values, filter FieldPathFilter) error
 }
 
 // PopulateQueryParameters parses query parameters
 // into "msg" using current query parser
-func PopulateQueryParameters(msg proto.Message, values url.Values, filter *utilities.DoubleArray) error {
+func PopulateQueryParameters(msg proto.Message, values url.Values, filter FieldPathFilter) error {
 	return currentQueryParser.Parse(msg, values, filter)
 }
 
@@ -58,7 +74,7 @@ type DefaultQueryParser struct{}
 
 // Parse populates "values" into "msg".
 // A value is ignored if its key starts with one of the elements in "filter".
-func (*DefaultQueryParser) Parse(msg proto.Message, values url.Values, filter *utilities.DoubleArray) error {
+func (*DefaultQueryParser) Parse(msg proto.Message, values url.Values, filter FieldPathFilter) error {
 	for key, values := range values {
 		if match := valuesKeyRegexp.FindStringSubmatch(key); len(match) == 3 {
 			key = match[1]
